@@ -16,3 +16,84 @@ Theorem refine_terminates_monotone :
     ro_berr ro = berr_of A safe1 safe2 (residual A notran cols (ro_x ro) b) (denom A notran cols (ro_x ro) b).
 Proof. exact (@refine_terminates_thm). Qed.
 Print Assumptions refine_terminates_monotone.
+
+(* exact arithmetic: the two sparse loop nests (sp_dgemv and the hand loops), in both orientations, compute
+   b - op(A) x and |b| + |op(A)||x| row by row *)
+Theorem refine_residual_denominators :
+  forall (A : Arith Q), ArithQ_ok A ->
+  forall (notran : bool) (cols : list (list (nat * Q))) (x b : list Q) (n : nat),
+    length b = n -> length cols = n -> length x = n ->
+    (forall i, (i < n)%nat ->
+       (nth i (residual A notran cols x b) (a0 A) == nth i b (a0 A) - sum_prod (op_terms notran cols x i))%Q) /\
+    (forall i, (i < n)%nat ->
+       (nth i (denom A notran cols x b) (a0 A) == Qabs (nth i b (a0 A)) + sum_absprod (op_terms notran cols x i))%Q).
+Proof. exact refine_residual_denominators_thm. Qed.
+Print Assumptions refine_residual_denominators.
+
+(* the berr formula, exactly as coded: the maximum over the rows with a nonzero denominator d_i of
+   (|r_i| + (d_i <= safe2 ? safe1 : 0)) / d_i, 0 when there is no such row *)
+Theorem berr_formula :
+  forall (A : Arith Q), ArithQ_ok A -> forall (safe1 safe2 : Q), (0 <= safe1)%Q -> (0 <= safe2)%Q ->
+  forall (work rw : list Q) (n : nat), length work = n -> length rw = n ->
+    let s := berr_of A safe1 safe2 work rw in
+    (0 <= s)%Q /\
+    (forall i, (i < n)%nat -> ~ (nth i rw (a0 A) == 0)%Q ->
+               (term_spec safe1 safe2 (nth i work (a0 A)) (nth i rw (a0 A)) <= s)%Q) /\
+    ((s == 0)%Q \/ exists i, (i < n)%nat /\ ~ (nth i rw (a0 A) == 0)%Q /\
+                             (s == term_spec safe1 safe2 (nth i work (a0 A)) (nth i rw (a0 A)))%Q).
+Proof. exact berr_formula_thm. Qed.
+Print Assumptions berr_formula.
+
+(* Oettli-Prager, both directions, for op(A) = A or A' on the matrix handed to dgsrfs (the equilibrated one):
+   every row i admits |dA_i| <= berr |A_i|, |db_i| <= berr |b_i| with ((A+dA) x)_i = (b+db)_i, and when no row
+   falls under the safe2 guard no smaller relative size w admits such perturbations *)
+Theorem berr_is_oettli_prager :
+  forall (A : Arith Q), ArithQ_ok A -> forall (safe1 safe2 : Q), (0 <= safe1)%Q -> (0 <= safe2)%Q ->
+  forall (notran : bool) (cols : list (list (nat * Q))) (x b : list Q) (n : nat),
+    length b = n -> length cols = n -> length x = n ->
+    let s := berr_of A safe1 safe2 (residual A notran cols x b) (denom A notran cols x b) in
+    (0 <= s)%Q /\
+    (forall i, (i < n)%nat -> row_feasible s (op_terms notran cols x i) (nth i b (a0 A))) /\
+    (forall w, (0 <= w)%Q ->
+       (forall i, (i < n)%nat -> row_feasible w (op_terms notran cols x i) (nth i b (a0 A))) ->
+       (forall i, (i < n)%nat ->
+          let d := (Qabs (nth i b (a0 A)) + sum_absprod (op_terms notran cols x i))%Q in ~ (d == 0)%Q -> (safe2 < d)%Q) ->
+       (s <= w)%Q).
+Proof. exact berr_is_oettli_prager_thm. Qed.
+Print Assumptions berr_is_oettli_prager.
+
+(* with the exact infinity norm in place of the estimator: |x - x*|_i <= (|inv(op A)| W)_i for the weights
+   W = |r| + (nz_i+1) eps (|op A||x| + |b|) (+ safe1) that dgsrfs builds, x* the exact solution, Brows an exact
+   left inverse *)
+Theorem ferr_exact_norm_dominates :
+  forall (A : Arith Q), ArithQ_ok A ->
+  forall (notran : bool) (cols : list (list (nat * Q))) (n : nat) (Brows : list (list Q)) (x xs b : list Q)
+         (eps safe1 safe2 : Q),
+    length b = n -> length cols = n -> length x = n -> length xs = n -> (0 <= eps)%Q -> (0 <= safe1)%Q ->
+    (forall i, (i < n)%nat -> (sum_prod (op_terms notran cols xs i) == nth i b 0)%Q) ->
+    (forall v, length v = n -> forall i, (i < n)%nat -> (dot (nth i Brows []) (opv notran cols n v) == nth i v 0)%Q) ->
+    let W := ferr_weights A eps safe1 safe2 (residual A notran cols x b) (denom A notran cols x b)
+                          (row_counts notran n cols) in
+    forall i, (i < n)%nat -> (Qabs (nth i x 0 - nth i xs 0) <= dot (map Qabs (nth i Brows [])) W)%Q.
+Proof. exact ferr_exact_norm_dominates_thm. Qed.
+Print Assumptions ferr_exact_norm_dominates.
+
+(* PARTIAL: what is proved about the value dlacon_ returns inside dgsrfs is only that it is an attained ratio
+   ||M v||_1/||v||_1 of the operator M = diag(W) inv(op(A))' diag(s), hence <= every bound N of its 1-norm
+   (= the exact infinity norm of diag(s) inv(op A) diag(W)): the estimator can only under-estimate, so
+   "FERR x slack dominates the true error" is NOT a theorem and is decided by the oracle of checks/c13.py *)
+Theorem ferr_estimator_partial :
+  forall (A : Arith Q), ArithQ_ok A -> forall (n : nat), (1 <= n)%nat ->
+  forall (fN fT : list Q -> list Q),
+    (forall v, length v = n -> length (fN v) = n) -> (forall v, length v = n -> length (fT v) = n) ->
+  forall (sc : option (list Q)), match sc with Some c => length c = n | None => True end ->
+  forall (w : list Q), length w = n ->
+  forall (st : lacon_st) (io0 : lacon_io) (N : Q) (fuel : nat) (res : lacon_res unit),
+    kase io0 = 0%Z ->
+    lacon_drive A fuel n (ferr_op A (fun (s : unit) v => (s, fN v)) (fun (s : unit) v => (s, fT v)) sc w) tt st io0 O
+      = Some res ->
+    (forall v, length v = n -> (sumabs (ferrM A fT sc w v) <= N * sumabs v)%Q) ->
+    (est (r_io res) <= N)%Q /\
+    exists v, length v = n /\ (0 < sumabs v)%Q /\ (est (r_io res) * sumabs v == sumabs (ferrM A fT sc w v))%Q.
+Proof. exact ferr_estimator_partial_thm. Qed.
+Print Assumptions ferr_estimator_partial.
